@@ -435,6 +435,9 @@ func (s *ImmutableState) GetEntityNodes(ctx context.Context, id signature.Public
 
 		nodes = append(nodes, &node)
 	}
+	if it.Err() != nil {
+		return nil, abciAPI.UnavailableStateError(it.Err())
+	}
 
 	registry.SortNodeList(nodes)
 	return nodes, nil
